@@ -236,4 +236,17 @@ C11_answered     == \A c \in Clients : (rpc[c] \in {"checked", "sent"}) ~> (rpc[
 \* the core loop is never parked inside a request closure forever
 C11_no_wedge     == (cpc = "req") ~> (cpc # "req" \/ panicked)
 
+\* ------------------------------------------------------------------ witness goals
+\* Negated reachability goals: checked as "invariants", TLC returns a shortest behaviour that reaches the situation;
+\* the replay driver executes it on the code and then lets everything run free (c10.py / c11.py: "witness" schedules).
+NotG1 == ~(ppc = "send" /\ abortC /\ cpc = "req")          \* Stop signalled while the producer is parked in its send and the core runs a request
+NotG2 == ~(ppc = "send" /\ abortC /\ cpc = "blk")          \* ... and the core is processing a block
+NotG3 == ~(\E a, b \in Stoppers : a # b /\ kpc[a] = "signalled" /\ kpc[b] = "post")
+NotG4 == ~(\E c \in Clients : rpc[c] = "checked" /\ cpc = "gone")
+NotG5 == ~(\E c \in Clients : rpc[c] = "checked" /\ abortC /\ cpc = "select" /\ ~nbC)
+NotG6 == ~(spc = "launched" /\ cpc = "gone")
+NotG7 == ~(\E c \in Clients : rpc[c] = "sent" /\ abortC)
+NotG8 == ~(gen = 2 /\ \E s \in Stoppers : kpc[s] = "signalled")
+NotG9 == ~(ppc = "send" /\ abortC /\ cpc = "select")
+NotG10 == ~(\E c \in Clients : rpc[c] = "checked" /\ ppc = "send" /\ cpc = "select")   \* request and block both ready
 =============================================================================
